@@ -36,7 +36,7 @@ type pOp struct {
 	ID       string            `json:"id,omitempty"`
 	Name     string            `json:"name,omitempty"`
 	ArgsPath string            `json:"argsPath,omitempty"`
-	Args     map[string]string `json:"args,omitempty"`
+	Args     map[string]any    `json:"args,omitempty"` // []tpart | map[string][]tpart
 	Items    []string          `json:"items,omitempty"`
 	Query    string            `json:"query,omitempty"`
 	Var      string            `json:"var,omitempty"`
@@ -52,6 +52,15 @@ type pAct struct {
 	When     pCond   `json:"when"`
 	Ops      []pOp   `json:"ops,omitempty"`
 	Children []*pAct `json:"children,omitempty"`
+}
+
+// literal call arguments
+func litArgs(m map[string]string) map[string]any {
+	out := map[string]any{}
+	for k, v := range m {
+		out[k] = []tpart{{Lit: v}}
+	}
+	return out
 }
 
 func tmplString(t []tpart) string {
@@ -121,7 +130,16 @@ func (a *pAct) yamlMap() map[string]any {
 			}
 			args := map[string]any{}
 			for k, v := range o.Args {
-				args[k] = v
+				switch x := v.(type) {
+				case []tpart:
+					args[k] = tmplString(x)
+				case map[string][]tpart:
+					sub := map[string]any{}
+					for k2, t := range x {
+						sub[k2] = tmplString(t)
+					}
+					args[k] = sub
+				}
 			}
 			cm["args"] = args
 			m["call"] = cm
@@ -167,6 +185,9 @@ func (a *pAct) yamlMap() map[string]any {
 // ---- Gallina
 func gTmpl(t []tpart) string {
 	return gList(t, func(p tpart) string {
+		if strings.Contains(p.Var, ".") {
+			return "PPath " + gStrs(strings.Split(p.Var, "."))
+		}
 		if p.Var != "" {
 			return "PVar " + gStr(p.Var)
 		}
@@ -224,7 +245,15 @@ func (o pOp) gallina() string {
 		if ap == "" {
 			ap = "args"
 		}
-		return "OpCall " + gStr(o.Name) + " " + gStr(ap) + " " + gList(sortedKeys(o.Args), func(k string) string { return "(" + gStr(k) + ", " + gStr(o.Args[k]) + ")" })
+		return "OpCall " + gStr(o.Name) + " " + gStr(ap) + " " + gList(sortedKeys(o.Args), func(k string) string {
+			switch x := o.Args[k].(type) {
+			case map[string][]tpart:
+				return "(" + gStr(k) + ", ASub " + gList(sortedKeys(x), func(k2 string) string { return "(" + gStr(k2) + ", " + gTmpl(x[k2]) + ")" }) + ")"
+			case []tpart:
+				return "(" + gStr(k) + ", ALeaf " + gTmpl(x) + ")"
+			}
+			return "(" + gStr(k) + ", ALeaf [])"
+		})
 	case "foreach":
 		v := o.Var
 		if v == "" {
